@@ -85,7 +85,7 @@ plain ascending orders on distinct keys, `sort_sites_pinned`) — or it is one o
 their own theorems. The classification is regenerated from the typed syntax tree, so moving or renaming such a loop
 changes nothing, while a new raw range over a map is an undischarged obligation. -/
 def provedSites : List String :=
-  ["imports.imports.decorateImport: range i.prefixes", "input.init: range mapScopeString"]
+  ["imports.imports.decorateImport: range $1.prefixes", "input.init: range mapScopeString"]
 
 theorem sites_covered :
     (∀ s ∈ Generated.mapRangeSites, s ∈ provedSites) ∧
